@@ -83,5 +83,9 @@ let () =
        | [ "." ] -> flush_block ()
        | _ -> cur := parse toks :: !cur
      done
-   with End_of_file -> flush_block ());
+   with
+   | End_of_file -> flush_block ()
+   | Failure _ ->
+       (* a log cut short by a dying harness process: the incomplete block is not judged *)
+       cur := []; inblock := false);
   Printf.printf "DONE %d %d %d\n" !logs !msgs !bad
